@@ -711,7 +711,7 @@ def check_loop_switch(case):
 @st.composite
 def batteries(draw, tier):
     names = draw(st.lists(st.sampled_from(ALL), min_size=12, max_size=12))
-    return {"cases": [draw(c18.tool_cases(n, tier)) for n in names]}
+    return {"cases": [draw(c18.tool_cases(n, tier, cfaults=False)) for n in names]}
 
 
 def check_cm_program(case):
@@ -733,7 +733,7 @@ def cm_programs():
 
 
 def shards(tier):
-    out = [Shard(name, check_tool, strategy=with_real_loop(c18.tool_cases(name, tier)), n=60, nontrivial=lambda c: False,
+    out = [Shard(name, check_tool, strategy=with_real_loop(c18.tool_cases(name, tier, cfaults=False)), n=60, nontrivial=lambda c: False,
                  thorough_mult=15) for name in ALL]
     out += [Shard(f"sync-{name}", check_sync, strategy=with_real_loop(sync_cases(name)), n=60,
                   nontrivial=lambda c: bool(c["fns"]), thorough_mult=15) for name in ALL]
